@@ -193,6 +193,11 @@ def run_module(text: str, modname: str, timeout: int = 30, jobs: int = 16, only:
             r.detail += " | native: " + how
             if not ok:
                 r.verdict = "harness_error"
+            elif re.search(r"raises (AttributeError|ImportError|NameError): .*(has no attribute|cannot import name|is not defined)", how):
+                # a private tealer symbol the harness resolves by name no longer exists: the kernel is
+                # not applicable on this tree (the S/G checks keep deciding the property)
+                r.verdict = "unavailable"
+                r.detail = "symbol missing on this tree: " + how
         if r.verdict == "confirmed" and r.twin == "vacuous":
             r.verdict = "vacuous"
     return [results[n] for n in names]
